@@ -561,7 +561,7 @@ func c09Scens(tier string) []c09Scen {
 	if tier == "thorough" {
 		bound = 1
 	}
-	for _, cfg := range cfgs {
+	for ci, cfg := range cfgs {
 		for _, entry := range []string{"index", "media"} {
 			for _, word := range []string{"regular", "params", "sparse"} {
 				hasVideo := cfg.Tracks[cfg.leading()].video()
@@ -582,7 +582,7 @@ func c09Scens(tier string) []c09Scen {
 							continue
 						}
 						b := bound
-						if tier != "thorough" && pol == 0 && word == "regular" && ai == 0 {
+						if tier != "thorough" && pol == 0 && word == "regular" && ai == 0 && entry == "index" && (ci == 0 || ci == 3 || ci == 9) {
 							b = 1 // every schedule one deviation away from the canonical one
 						}
 						out = append(out, c09Scen{Cfg: cfg, Entry: entry, Word: word, AttachMS: attach, Policy: pol, Bound: b})
